@@ -543,6 +543,7 @@ type Contract struct {
 	ArithWrap   bool
 	Logs        bool // may perform API calls (extends the ghost call log)
 	NoHeap      bool // external: does not touch the heap at all (results havocked)
+	DeepTree    bool // precise tree model of generated DeepCopy calls inside this unit
 	Requires    []*Clause
 	Ensures     []*Clause
 	Modifies    []Expr // location expressions; nil + !ModAny = modifies nothing visible
@@ -596,7 +597,7 @@ type ContractFile struct {
 var clauseKeywords = map[string]bool{
 	"import": true, "func": true, "pure": true, "transparent": true, "trusted": true, "arith": true,
 	"requires": true, "ensures": true, "modifies": true, "loop": true, "let": true, "spec": true,
-	"lemma": true, "reads": true, "noheap": true, "logs": true, "params": true, "end": true,
+	"lemma": true, "reads": true, "noheap": true, "logs": true, "deepcopy-tree": true, "params": true, "end": true,
 }
 
 // parseTagsLabel strips an optional "[C01,C02]" and an optional "label:" prefix.
@@ -706,6 +707,10 @@ func ParseContractText(path, pkgPath, text string, external bool) (*ContractFile
 			cur.Trusted = true
 		case "logs":
 			cur.Logs = true
+		case "deepcopy-tree":
+			// model generated DeepCopy precisely: nested objects the model does not descend into live in a reserved
+			// block of newly allocated roots (costs a symbolic allocation counter after every copy)
+			cur.DeepTree = true
 		case "noheap":
 			cur.NoHeap = true
 			cur.ModAny = false
